@@ -173,6 +173,25 @@ def run (s : DState) : List (Nat × Choice) → Option DState
   | [] => some s
   | (t, c) :: rest => (step t s c).bind fun s' => run s' rest
 
+/-! ## The two call sites in the connection builder (`dial_url`) -/
+
+/-- `MaybeTlsStreamBuilder::dial_url`: straight to the relay, or `dial_url_proxy` (dial the
+proxy with the same dialer, then an HTTP `CONNECT` which the proxy answers with `status`). -/
+inductive Path
+  | direct
+  | proxy (status : Nat)
+deriving DecidableEq, Repr
+
+/-- What `dial_url` returns given what the dialer returned.  On the proxy path a missing
+port is reported as the proxy's, and a connected attempt still fails if the proxy does not
+answer the `CONNECT` with a 2xx status. -/
+def dialUrlResult (path : Path) (r : Except Err Nat) : Except Err Nat :=
+  match path, r with
+  | .direct, r => r
+  | .proxy status, .ok i =>
+    if 200 ≤ status ∧ status < 300 then .ok i else .error s!"proxystatus.{status}"
+  | .proxy _, .error e => if e = "port" then .error "proxyport" else .error e
+
 /-! ## Timed environment (driver side) -/
 
 /-- A connection attempt as the environment sees it. -/
